@@ -53,6 +53,9 @@ type Case struct {
 	Docs    []string `json:"docs"`
 	Steps   []Step   `json:"steps"`
 	Poison  bool     `json:"poison"`
+	// NoScribble leaves redeemed objects untouched: scribbling resets maps and pointers, which would hide
+	// state that a constructor forgets to reset; a third of the histories therefore run on the pools as they are.
+	NoScribble bool `json:"no_scribble,omitempty"`
 }
 
 const (
@@ -64,6 +67,7 @@ const (
 func genCase(t *rapid.T) Case {
 	var c Case
 	c.Poison = rapid.Bool().Draw(t, "poison")
+	c.NoScribble = rapid.IntRange(0, 2).Draw(t, "noscribble") == 0
 	ns := rapid.IntRange(1, 3).Draw(t, "nschemas")
 	var docs []map[string]any
 	for i := 0; i < ns; i++ {
@@ -284,7 +288,11 @@ func check(c Case) (out ev.Outcome) {
 	// 2. the history, with recycling on and every redeemed object scribbled
 	hook.ResetPools()
 	poison := c.Poison
-	hook.SetRedeemHook(func(obj any) bool { scribble.Scribble(obj, poison); return false })
+	if c.NoScribble {
+		hook.SetRedeemHook(nil)
+	} else {
+		hook.SetRedeemHook(func(obj any) bool { scribble.Scribble(obj, poison); return false })
+	}
 	type kept struct {
 		step int
 		errs []error
@@ -333,7 +341,7 @@ func check(c Case) (out ev.Outcome) {
 	for k := range kinds {
 		out.Classes = append(out.Classes, "entry:"+k)
 	}
-	out.Classes = append(out.Classes, fmt.Sprintf("poison:%v", c.Poison), fmt.Sprintf("invalid-seen:%v", invalid))
+	out.Classes = append(out.Classes, fmt.Sprintf("poison:%v", c.Poison), fmt.Sprintf("no-scribble:%v", c.NoScribble), fmt.Sprintf("invalid-seen:%v", invalid))
 	out.Nontrivial = executed >= 3 && len(kinds) >= 2 && earlyThenBorrow && invalid
 	return out
 }
